@@ -64,6 +64,38 @@ pub const JUMP10: [usize; 10] = [0, 6, 9, 12, 13, 15, 17, 18, 19, 20];
 /// K6: length 7 (thorough: 8) without spaces: number, prefix, suffix and infix operator, parentheses, side-effect
 /// brackets, blank line
 pub const TIGHT9: [usize; 9] = [0, 6, 8, 9, 17, 18, 21, 22, 23];
+/// one token per class the parser distinguishes (value, prefix, suffix, left-to-right, right-to-left and optional
+/// binary operator, the three bracket kinds, blank line), without spaces
+pub const TIGHT13: [usize; 13] = [0, 6, 8, 9, 10, 11, 17, 18, 19, 20, 21, 22, 23];
+
+/// K8: escape sequences in quoted literals at the boundaries of what they can denote
+pub fn escape_texts() -> &'static Vec<String> {
+    static T: std::sync::OnceLock<Vec<String>> = std::sync::OnceLock::new();
+    T.get_or_init(make_escape_texts)
+}
+
+fn make_escape_texts() -> Vec<String> {
+    let mut v = vec![];
+    let codes = ["", "0", "41", "7F", "80", "7FF", "800", "D7FF", "D800", "DBFF", "DC00", "DFFF", "E000", "FFFF", "10000", "10FFFF", "110000", "FFFFFF", "FFFFFFFF", "100000000", "G", "-1", " 41", "41 "];
+    for q in ["\"", "'", "\"\"\"", "\'\'\'"] {
+        for c in codes {
+            v.push(format!("{}\\u{{{}}}{}", q, c, q));
+            v.push(format!("{}a\\u{{{}}}b{}", q, c, q));
+        }
+        for e in ["\\", "\\\\", "\\n", "\\t", "\\r", "\\0", "\\q", "\\u", "\\u{", "\\u}", "\\u{41", "\\x41", "\\\"", "\\'"] {
+            v.push(format!("{}{}{}", q, e, q));
+            v.push(format!("{}{}a{}", q, e, q));
+        }
+    }
+    for n in ["''300''", "''-1''", "''256''", "''255 0''", "''1.5''", "''0x''", "''016_ff''", "''99999999999''", "'' ''", "''a''"] {
+        v.push(n.to_string());
+    }
+    for n in ["99999999999", "1e400", "1.0e400", "0.0e0", "036_zz", "037_1", "01_1", "02_2", "0_", "1_", "1__2", "1.2.3", "1..2", ".5", "5.", "1e", "1e+", "0b1", "0x1f"] {
+        v.push(n.to_string());
+    }
+    v
+}
+
 
 pub const ALPHABET: [&str; 43] = [
     "1", "a", "_", ":", ".", " ", "\t", "\n", "\r", "\"", "'", "\\", "@", "`", "$", "?", "!", "~", "<", ">", "=", "+", "-", "|", "&", "^", "#", "%", "*", "/", "(", ")", "{",
@@ -89,7 +121,14 @@ fn pow(b: u64, e: u32) -> u64 {
     b.pow(e)
 }
 
-fn segs(tier: Tier, with_programs: bool) -> Vec<Seg> {
+fn segs(tier: Tier, with_programs: bool) -> &'static Vec<Seg> {
+    // computed once per (tier, with_programs): this is called for every element
+    static CACHE: [std::sync::OnceLock<Vec<Seg>>; 4] = [std::sync::OnceLock::new(), std::sync::OnceLock::new(), std::sync::OnceLock::new(), std::sync::OnceLock::new()];
+    let slot = (if tier == Tier::Quick { 0 } else { 2 }) + if with_programs { 1 } else { 0 };
+    CACHE[slot].get_or_init(|| make_segs(tier, with_programs))
+}
+
+fn make_segs(tier: Tier, with_programs: bool) -> Vec<Seg> {
     let n = CLASSES.len() as u64;
     let a = ALPHABET.len() as u64;
     let mut v = vec![
@@ -107,7 +146,9 @@ fn segs(tier: Tier, with_programs: bool) -> Vec<Seg> {
         Seg { name: "k5-len6", count: tier.pick(0, pow(10, 6) * 32) },
         Seg { name: "k4-len6", count: tier.pick(pow(8, 6) * 32, pow(10, 6) * 32) },
         Seg { name: "k4-len7", count: tier.pick(0, pow(8, 7) * 64) },
-        Seg { name: "k6-len7-tight", count: pow(9, 7) },
+        Seg { name: "k8-escapes", count: escape_texts().len() as u64 },
+        Seg { name: "k6-len6-tight", count: pow(13, 6) },
+        Seg { name: "k6-len7-tight", count: tier.pick(pow(9, 7), pow(13, 7)) },
         Seg { name: "k6-len8-tight", count: tier.pick(0, pow(9, 8)) },
     ];
     if with_programs {
@@ -277,9 +318,14 @@ pub fn item(tier: Tier, with_programs: bool, mut idx: u64) -> Item {
                 let (t, d) = k1_text(6, idx, &JUMP10);
                 Item::Text(t, d)
             }
+            "k8-escapes" => Item::Text(escape_texts()[idx as usize].clone(), "escapes".into()),
+            "k6-len6-tight" => {
+                let (t, d) = k1_text(6, idx << 5, &TIGHT13);
+                Item::Text(t, d)
+            }
             "k6-len7-tight" => {
                 // joins = 0: the index is multiplied by 2^6 so that k1_text reads "no space anywhere"
-                let (t, d) = k1_text(7, idx << 6, &TIGHT9);
+                let (t, d) = if tier == Tier::Quick { k1_text(7, idx << 6, &TIGHT9) } else { k1_text(7, idx << 6, &TIGHT13) };
                 Item::Text(t, d)
             }
             "k6-len8-tight" => {
@@ -980,7 +1026,7 @@ impl Property for C03 {
     }
     fn meta(&self, tier: Tier) -> Meta {
         Meta {
-            rule: format!("K1: every sequence of 32 token classes (one representative spelling each: values, prefix/suffix/binary operators, brackets, separators, apply-by-identifier forms, annotations) of length <= 3 with every choice of 'nothing or one space' between neighbours, length 4 over {}; K2: every string over a 43-symbol alphabet (one per lexer character class plus 2-, 2- and 4-byte characters, form feed and NUL) of length <= {}; K3: 40 scaling families at 64..1024 repetitions; K4 (small-scope tiers, every spacing choice as in K1): length 5 over {} classes, length 6 over {} classes{} drawn from number, prefix, suffix and infix operator, comma, blank line and the three bracket kinds; K6: length 7 (thorough: 8) without spaces over 9 classes (number, prefix, suffix, infix, parentheses, side-effect brackets, blank line); K5: length 5{} over the 10 jump-making classes (number, prefix and infix operator, ?>, |>, &&, parentheses, braces); the well-formed programs of the C01 corpora. Each input goes through lex, parse, a structural tree check, then build into SimpleGarnishData and BasicGarnishData. Verdict: no stage panics, aborts, overflows the stack or exceeds its wall budget (supervisor-confirmed), parse never returns a result whose child links contain a cycle (build would not terminate on it - such a result is not handed to build; results with orphan, shared or out-of-range children are built under the panic guard), K3 time <= 50 ms + 3 us * n^2. Non-trivial = input that gets past lex; distinct by text.", tier.pick("a 16-class core", "all 32 classes"), tier.pick(3, 4), tier.pick(10, 12), tier.pick(8, 10), tier.pick("", ", length 7 over 8 classes,"), tier.pick("", " and 6")),
+            rule: format!("K1: every sequence of 32 token classes (one representative spelling each: values, prefix/suffix/binary operators, brackets, separators, apply-by-identifier forms, annotations) of length <= 3 with every choice of 'nothing or one space' between neighbours, length 4 over {}; K2: every string over a 43-symbol alphabet (one per lexer character class plus 2-, 2- and 4-byte characters, form feed and NUL) of length <= {}; K3: 40 scaling families at 64..1024 repetitions; K4 (small-scope tiers, every spacing choice as in K1): length 5 over {} classes, length 6 over {} classes{} drawn from number, prefix, suffix and infix operator, comma, blank line and the three bracket kinds; K6: without spaces, length 6 over 13 classes (one per class the parser distinguishes: value, prefix, suffix, left-to-right / right-to-left / optional binary operator, three bracket kinds, blank line), length 7 over 9 of them (thorough: all 13, and length 8 over 9); K8: escape sequences and number spellings at the boundaries of what literals can denote; K5: length 5{} over the 10 jump-making classes (number, prefix and infix operator, ?>, |>, &&, parentheses, braces); the well-formed programs of the C01 corpora. Each input goes through lex, parse, a structural tree check, then build into SimpleGarnishData and BasicGarnishData. Verdict: no stage panics, aborts, overflows the stack or exceeds its wall budget (supervisor-confirmed), parse never returns a result whose child links contain a cycle (build would not terminate on it - such a result is not handed to build; results with orphan, shared or out-of-range children are built under the panic guard), K3 time <= 50 ms + 3 us * n^2. Non-trivial = input that gets past lex; distinct by text.", tier.pick("a 16-class core", "all 32 classes"), tier.pick(3, 4), tier.pick(10, 12), tier.pick(8, 10), tier.pick("", ", length 7 over 8 classes,"), tier.pick("", " and 6")),
             assumptions: vec![
                 "a parse result whose child links contain a cycle is reported as a totality violation without executing build on it (build follows child links with a work stack and cannot terminate on a cycle)".into(),
                 "the polynomial-time clause is checked only as a blunt quadratic wall-clock bound on 40 repeat families; a change of exponent below that is not detected".into(),
